@@ -42,7 +42,7 @@ SIM_COMMON := sim/kernel/kernel sim/codec/wire sim/core/core
 SIM_COMMON_OBJS := $(addprefix $(B)/obj/,$(addsuffix .o,$(SIM_COMMON)))
 SIMBUS_SRCS := sim/harness/simbus sim/harness/busworld sim/harness/exec sim/harness/gen sim/model/busmodel sim/model/matchrule sim/model/policy
 SIMBUS_OBJS := $(addprefix $(B)/obj/,$(addsuffix .o,$(SIMBUS_SRCS)))
-SIMLIB_SRCS := sim/harness/simlib sim/harness/libworld sim/harness/libchecks sim/harness/libstream sim/harness/libpending sim/harness/libtree
+SIMLIB_SRCS := sim/harness/simlib sim/harness/libworld sim/harness/libchecks sim/harness/libstream sim/harness/libpending sim/harness/libtree sim/sched/sched
 SIMLIB_OBJS := $(addprefix $(B)/obj/,$(addsuffix .o,$(SIMLIB_SRCS)))
 
 WRAPS := socket socketpair bind listen accept accept4 connect getsockname getpeername getsockopt setsockopt \
@@ -50,6 +50,10 @@ WRAPS := socket socketpair bind listen accept accept4 connect getsockname getpee
   epoll_create1 inotify_init inotify_init1 clock_gettime gettimeofday time nanosleep usleep getrandom \
   getuid geteuid getgid getegid getpid getpwnam_r getpwuid_r getpwnam getpwuid getgrnam_r getgrgid_r getgrnam \
   getgrouplist fork waitpid kill setrlimit prlimit sd_uid_get_seats sd_journal_stream_fd sd_notify sd_listen_fds
+# libdbus' platform thread layer: the seam of the serialising thread scheduler (sim/sched), simlib only
+THREAD_WRAPS := _dbus_platform_cmutex_lock _dbus_platform_cmutex_unlock _dbus_platform_rmutex_lock _dbus_platform_rmutex_unlock \
+  _dbus_platform_condvar_wait _dbus_platform_condvar_wait_timeout _dbus_platform_condvar_wake_one
+THREAD_WRAPFLAGS := $(foreach w,$(THREAD_WRAPS),-Wl,--wrap=$(w))
 WRAPFLAGS := $(foreach w,$(WRAPS),-Wl,--wrap=$(w))
 RTDIR := $(shell clang -print-resource-dir)/lib/linux
 # shared sanitizer runtime: --wrap must not capture the runtime's own pipe/fork/read (symbolizer)
@@ -74,7 +78,7 @@ $(B)/simbus: $(DBUS_OBJS) $(BUS_OBJS) $(SIM_COMMON_OBJS) $(SIMBUS_OBJS)
 	$(CXX) $(SAN) $(OPT) -o $@ $^ $(WRAPFLAGS) $(LIBS)
 
 $(B)/simlib: $(DBUS_OBJS) $(SIM_COMMON_OBJS) $(SIMLIB_OBJS)
-	$(CXX) $(SAN) $(OPT) -o $@ $^ $(WRAPFLAGS) $(LIBS)
+	$(CXX) $(SAN) $(OPT) -o $@ $^ $(WRAPFLAGS) $(THREAD_WRAPFLAGS) $(LIBS)
 
 clean:
 	rm -rf $(B)/obj $(B)/simbus $(B)/simlib $(B)/simhelper
